@@ -61,7 +61,8 @@ theorem cgE_infix (mod : String) (ρ φ : String → Option String) (sp ty op l 
 theorem okGE_call_inv (fr : Bool) (sp ty base args sw) (h : Frag.okE fr (.call sp ty base args sw) = true) :
     (∃ isp ity name g f si, base = .ident isp ity name g f si ∧ sw = false ∧ name ≠ "throw" ∧
       name ≠ "println" ∧ Frag.okEArgs fr args = true ∧ Frag.oneNonAtom args = true) ∨
-    (∃ msp mty b, base = .member msp mty b "len" .dot ∧ args = [] ∧ sw = false ∧ fr = true ∧ Frag.okE fr b = true) := by
+    (∃ msp mty b nm, base = .member msp mty b nm .dot ∧ args = [] ∧ sw = false ∧ fr = true ∧ nm ∈ meth0 ∧
+      Frag.okE fr b = true) := by
   cases base <;> try (simp [Frag.okE] at h; done)
   case ident isp ity name g f si =>
     left
@@ -72,9 +73,9 @@ theorem okGE_call_inv (fr : Bool) (sp ty base args sw) (h : Frag.okE fr (.call s
   case member msp mty b nm mop =>
     right
     cases mop <;> cases args <;> cases sw <;> try (simp [Frag.okE] at h; done)
-    simp only [Frag.okE, Bool.and_eq_true, beq_iff_eq] at h
-    obtain ⟨⟨hfr, rfl⟩, hb⟩ := h
-    exact ⟨msp, mty, b, rfl, rfl, rfl, hfr, hb⟩
+    simp only [Frag.okE, Bool.and_eq_true, List.contains_iff_mem] at h
+    obtain ⟨⟨hfr, hm⟩, hb⟩ := h
+    exact ⟨msp, mty, b, nm, rfl, rfl, rfl, hfr, hm, hb⟩
 
 /-- Expressions. -/
 theorem pe_step (G : GCtx) (hG : G.OK') (n : Nat) (hPE : ∀ m, m ≤ n → PE G m)
@@ -296,14 +297,16 @@ theorem pe_step (G : GCtx) (hG : G.OK') (n : Nat) (hPE : ∀ m, m ≤ n → PE G
               omega
     case call sp ty base args isSpawn =>
       rcases okGE_call_inv G.fr sp ty base args isSpawn hok with
-        ⟨isp, ity, name, g, f, si, rfl, rfl, hnt, hnp, hoa, hone⟩ | ⟨msp, mty, b, rfl, rfl, rfl, hfr, hb⟩
+        ⟨isp, ity, name, g, f, si, rfl, rfl, hnt, hnp, hoa, hone⟩ | ⟨msp, mty, b, nm, rfl, rfl, rfl, hfr, hnm, hb⟩
       rotate_left
-      · -- `l.len()`
+      · -- `l.len()`, `o.is_some()`, `o.is_none()`
+        obtain ⟨hHO, hnn, herr⟩ := callMember_meth0 nm hnm sp
         simp only [Frag.varsGE, Frag.callsGE, Frag.varsGArgs, Frag.callsGArgs, List.append_nil] at hres hcalls
         have hwb : Frag.wsGE scopes A.φ b = true := by simp [Frag.wsGE, hres, hcalls]
         have hTb : ∀ x ∈ Frag.namesGE b, x ∈ A.T := by
           intro x hx; exact hT x (by simpa [Frag.namesGE, Frag.varsGE, Frag.callsGE, Frag.varsGArgs, Frag.callsGArgs] using hx)
-        refine SimGE.of_simOE hfr (len_step G A hA hfr (n + 1) sp ty msp mty b st ip stk mem lm scopes hpl hsp ?_)
+        refine SimGE.of_simOE hfr (meth0_step G A hA hfr (n + 1) nm (meth0_sub nm hnm) sp ty msp mty b hHO hnn herr st ip stk mem
+          lm scopes hpl hsp ?_)
         intro g hg
         have hpb : Placed A.lab A.σ A.c ip (cgE G.mod (ρS scopes) A.φ b lm).1 := by
           simp only [cgE] at hpl; exact hpl.append.1
@@ -465,8 +468,8 @@ theorem pe_step (G : GCtx) (hG : G.OK') (n : Nat) (hPE : ∀ m, m ≤ n → PE G
           (fun hi => hi.push _ (fun fs' h => by
             cases h
             rw [hmv]
-            simp only [List.all_eq_true, Bool.and_eq_true, bne_iff_ne] at hnames
-            exact ⟨lookup_nulls fs "len" (fun f hf => (hnames f hf).1), lookup_nulls fs "push" (fun f hf => (hnames f hf).2)⟩))
+            simp only [List.all_eq_true, Bool.not_eq_true', List.contains_eq_mem, decide_eq_false_iff_not] at hnames
+            exact fun k hk => lookup_nulls fs k (fun f hf e => hnames f hf (e ▸ hk))))
         rw [hmv] at hpush
         have hels := hrun st.heap st.out [] hnd (fun _ _ h => by simp at h)
         rw [List.nil_append, List.nil_append] at hels
